@@ -55,6 +55,11 @@ pub fn build_pass_1(
                 eeprom_offset = current_end_offset;
             }
         }
+
+        // Verification hook: leak the consumed input segment instead of running its drop glue
+        // (which a bounded model checker has to unfold for every variant of every item)
+        #[cfg(avra_verif)]
+        std::mem::forget(segment);
     }
 
     let ram_filling = data_offset - device.ram_start;
